@@ -116,6 +116,41 @@ class HashOf:
     __hash__ = None
 
 
+_MUTATORS = {"append", "extend", "insert", "pop", "remove", "clear", "sort", "reverse", "setdefault", "update", "popitem", "add", "discard", "__setitem__", "__delitem__"}
+
+
+class UndoLog:
+    """first-write snapshots of containers / attributes mutated by instrumented code, so a harness can restore the
+    state a call found (used to evaluate 'the same call in a fresh process' inside one path)"""
+
+    def __init__(self):
+        self.containers = {}
+        self.attrs = {}
+
+    def note_container(self, obj):
+        if id(obj) not in self.containers:
+            self.containers[id(obj)] = (obj, obj.copy())
+
+    def note_attr(self, obj, name):
+        k = (id(obj), name)
+        if k not in self.attrs:
+            self.attrs[k] = (obj, name, obj.__dict__.get(name, UndoLog), name in obj.__dict__)
+
+    def restore(self):
+        for obj, snap in self.containers.values():
+            if isinstance(obj, list):
+                obj[:] = snap
+            else:
+                obj.clear()
+                obj.update(snap)
+        for obj, name, old, had in self.attrs.values():
+            if had:
+                obj.__dict__[name] = old
+            else:
+                obj.__dict__.pop(name, None)
+        self.containers, self.attrs = {}, {}
+
+
 _PASS_BUILTINS = {
     builtins.zip,
     builtins.enumerate,
@@ -210,6 +245,10 @@ def call(f, *a, **k):
     slf = getattr(f, "__self__", None)
     if isinstance(f, types.BuiltinMethodType) and slf is not None and not isinstance(slf, types.ModuleType):
         name = f.__name__
+        if name in _MUTATORS and isinstance(slf, (dict, list, set)):
+            _note_write("call:" + name, slf, None)
+            if ctx.undo is not None:
+                ctx.undo.note_container(slf)
         if isinstance(slf, str):
             if name == "join":
                 return models.model_join(slf, iter_(a[0]))
@@ -682,13 +721,25 @@ def _note_write(kind, obj, key):
         ctx.on_shared_access("w", obj, key)
 
 
+def getattr_(obj, name):
+    if ctx.on_shared_access is not None:
+        ctx.on_shared_access("r", obj, name)
+    return builtins.getattr(obj, name)
+
+
 def setattr_(obj, name, value):
     _note_write("setattr", obj, name)
+    if ctx.undo is not None:
+        ctx.undo.note_attr(obj, name)
     builtins.setattr(obj, name, value)
+    if ctx.on_shared_access is not None:
+        ctx.on_shared_access("w+", obj, name)
 
 
 def setitem_(obj, key, value):
     _note_write("setitem", obj, key)
+    if ctx.undo is not None:
+        ctx.undo.note_container(obj)
     if is_sym(key) or (isinstance(key, tuple) and deep_sym(key)):
         if isinstance(obj, dict):
             raise Unmodelled("dict store with symbolic key")
@@ -697,9 +748,13 @@ def setitem_(obj, key, value):
 
 def delattr_(obj, name):
     _note_write("delattr", obj, name)
+    if ctx.undo is not None:
+        ctx.undo.note_attr(obj, name)
     builtins.delattr(obj, name)
 
 
 def delitem_(obj, key):
     _note_write("delitem", obj, key)
+    if ctx.undo is not None:
+        ctx.undo.note_container(obj)
     del obj[key]
